@@ -432,9 +432,12 @@ class Builder:
         r = f'each{self.each}'
         return [Loop(e, (r,), [Emit(ast.Name(id=r, ctx=ast.Load()), f, node)], self.uid, f, node)]
 
-    def _block(self, f, stmts, buf, buffers, env, depth) -> list:
+    def _block(self, f, stmts, buf, buffers, env, depth, before=()) -> list:
+        """`before`: the statements of the enclosing blocks that run before this block (needed when another buffer is
+        spliced in: everything written to it so far, not only in the innermost block)"""
         out: list = []
         stmts = list(stmts)
+        before = list(before)
         for k, st in enumerate(stmts):
             if isinstance(st, ast.Expr) and isinstance(st.value, ast.Call) and isinstance(st.value.func, ast.Attribute) \
                     and isinstance(st.value.func.value, ast.Name) and st.value.func.value.id == buf:
@@ -442,19 +445,22 @@ class Builder:
                 if c.func.attr == 'append' and len(c.args) == 1:
                     out += self._emit_expr(f, c.args[0], st, env, buffers, buf, depth)
                 elif c.func.attr == 'extend' and len(c.args) == 1:
-                    out += self._extend_expr(f, c.args[0], st, env, buffers, buf, depth, stmts[:k])
+                    out += self._extend_expr(f, c.args[0], st, env, buffers, buf, depth, before + stmts[:k])
                 else:
                     raise AnalysisError(f'{f.fq}: `{text(st)}` changes the text buffer in a way the emission model '
                                         f'does not read')
             elif isinstance(st, ast.AugAssign) and isinstance(st.target, ast.Name) and st.target.id == buf and \
                     isinstance(st.op, ast.Add):
-                out += self._extend_expr(f, st.value, st, env, buffers, buf, depth, stmts[:k])
+                out += self._extend_expr(f, st.value, st, env, buffers, buf, depth, before + stmts[:k])
             elif isinstance(st, ast.Assign) and len(st.targets) == 1 and isinstance(st.targets[0], ast.Name):
                 nm = st.targets[0].id
                 if nm in buffers:
                     if nm == buf and isinstance(st.value, ast.List):   # a buffer that starts with some pieces
                         for x in st.value.elts:
                             out += self._emit_expr(f, x, st, env, buffers, buf, depth)
+                    elif nm == buf and isinstance(st.value, ast.Name) and st.value.id in buffers and st.value.id != buf:
+                        # the buffer *is* another local list from here on: what was written to that one so far
+                        out = self._block(f, before + stmts[:k], st.value.id, buffers, dict(env), depth)
                     continue
                 env[nm] = self._sub(st.value, env)
             elif isinstance(st, ast.Assign) and len(st.targets) == 1 and isinstance(st.targets[0], ast.Tuple) and \
@@ -469,22 +475,22 @@ class Builder:
                 env2 = dict(env)
                 for nm, r in roles.items():
                     env2[nm] = ast.Name(id=r, ctx=ast.Load())
-                body = self._block(f, st.body, buf, buffers, env2, depth)
+                body = self._block(f, st.body, buf, buffers, env2, depth, before + stmts[:k])
                 if body:
                     self.uid += 1
                     out.append(Loop(it, tuple(roles.values()), body, self.uid, f, st, dflt))
             elif isinstance(st, ast.If):
                 test = simplify_test(self._sub(st.test, env))
                 ends = _ends_block(st.body)
-                body = self._block(f, st.body, buf, buffers, dict(env), depth)
+                body = self._block(f, st.body, buf, buffers, dict(env), depth, before + stmts[:k])
                 if ends:
-                    rest = self._block(f, list(st.orelse) + stmts[k + 1:], buf, buffers, env, depth)
+                    rest = self._block(f, list(st.orelse) + stmts[k + 1:], buf, buffers, env, depth, before + stmts[:k])
                     if body:
                         out.append(Guard(test, body, rest, f, st))
                     elif rest:
                         out.append(Guard(negate(test), rest, [], f, st))
                     return out
-                orelse = self._block(f, st.orelse, buf, buffers, dict(env), depth)
+                orelse = self._block(f, st.orelse, buf, buffers, dict(env), depth, before + stmts[:k])
                 if body or orelse:
                     out.append(Guard(test, body, orelse, f, st))
                 # a local bound inside a branch is not known afterwards
